@@ -16,6 +16,7 @@ import (
 	"math/rand/v2"
 	"net/http"
 	"net/url"
+	"os"
 	"runtime"
 	"sort"
 	"strings"
@@ -51,7 +52,12 @@ func genC14Requests(r *rand.Rand, cc *checkCase, n int) []*c14Req {
 		t := pool[r.IntN(len(pool))]
 		switch r.IntN(9) {
 		case 0, 1:
-			reqs = append(reqs, &c14Req{Kind: "rest-check", Target: "/relation-tuples/check/openapi?" + tupleQuery(t).Encode()})
+			v := tupleQuery(t)
+			if d := r.IntN(5); d > 0 {
+				// the same tuple with different request depths at the same time
+				v.Set("max-depth", fmt.Sprint(d))
+			}
+			reqs = append(reqs, &c14Req{Kind: "rest-check", Target: "/relation-tuples/check/openapi?" + v.Encode()})
 		case 2:
 			b, _ := json.Marshal(t)
 			reqs = append(reqs, &c14Req{Kind: "rest-check-post", Target: "/relation-tuples/check/openapi", Body: string(b)})
@@ -74,7 +80,7 @@ func genC14Requests(r *rand.Rand, cc *checkCase, n int) []*c14Req {
 			q.Set("page_size", fmt.Sprint(1+r.IntN(5)))
 			reqs = append(reqs, &c14Req{Kind: "rest-list", Target: "/relation-tuples?" + q.Encode()})
 		case 6:
-			reqs = append(reqs, &c14Req{Kind: "grpc-check", Tuple: t})
+			reqs = append(reqs, &c14Req{Kind: "grpc-check", Tuple: t, Depth: int32(r.IntN(5))})
 		case 7:
 			reqs = append(reqs, &c14Req{Kind: "grpc-expand", Tuple: t, Depth: 4})
 		default:
@@ -85,7 +91,7 @@ func genC14Requests(r *rand.Rand, cc *checkCase, n int) []*c14Req {
 }
 
 func (q *c14Req) key() string {
-	return q.Kind + "|" + q.Target + "|" + q.Body + "|" + fmt.Sprint(q.Tuple)
+	return q.Kind + "|" + q.Target + "|" + q.Body + "|" + fmt.Sprint(q.Tuple) + "|" + fmt.Sprint(q.Depth)
 }
 
 // c14Exec executes the request and returns a normalised answer.
@@ -106,7 +112,7 @@ func c14Exec(ctx context.Context, env *Env, read http.Handler, g *grpcClients, q
 	case "grpc-check":
 		c, cancel := context.WithTimeout(ctx, 30*time.Second)
 		defer cancel()
-		resp, err := g.Check.Check(c, &rts.CheckRequest{Tuple: q.Tuple.ToProto()})
+		resp, err := g.Check.Check(c, &rts.CheckRequest{Tuple: q.Tuple.ToProto(), MaxDepth: q.Depth})
 		if err != nil {
 			return "ERR " + err.Error()
 		}
@@ -280,19 +286,55 @@ func runC14Round(run *runner, idx int64, cc *checkCase, reqs []*c14Req, raceMode
 		keys = append(keys, k)
 	}
 	sort.Strings(keys)
-	solo := map[string]string{}
+	solo := map[string]string{}             // first solo answer
+	soloSet := map[string]map[string]bool{} // every answer seen alone
 	unstable := map[string]bool{}
-	for rep := 0; rep < 3; rep++ {
+	binding := map[string]bool{} // requests for which a limit was binding when run alone: not judged
+	depthLimited := func(q *c14Req) bool {
+		return (q.Kind == "rest-check" && strings.Contains(q.Target, "max-depth=")) || (q.Kind == "grpc-check" && q.Depth > 0)
+	}
+	for rep := 0; rep < 8; rep++ {
 		for _, k := range keys {
-			a := c14Exec(caseCtx, env, read, g, distinct[k])
-			if rep == 0 {
+			q := distinct[k]
+			if rep >= 3 && !depthLimited(q) {
+				continue // three runs for requests whose answer may not vary at all
+			}
+			cuts0 := env.Hook.cuts()
+			a := c14Exec(caseCtx, env, read, g, q)
+			if env.Hook.cuts() != cuts0 {
+				binding[k] = true // a depth / width cut was logged while this request ran alone
+			}
+			if soloSet[k] == nil {
+				soloSet[k] = map[string]bool{}
 				solo[k] = a
-			} else if solo[k] != a {
+			}
+			soloSet[k][a] = true
+			if solo[k] != a {
 				unstable[k] = true
 			}
 		}
 	}
 	run.count("requests_with_unstable_solo_answer", int64(len(unstable)))
+	// Alone, on unchanged data, a request must give one answer. The only
+	// legitimate exception is a check whose REQUEST depth is binding (the
+	// engine's answer under a binding limit may vary between runs, see DESIGN
+	// §9.1); expand, list and checks under the generous global limits may not vary.
+	soloReported := map[string]bool{}
+	for k := range unstable {
+		q := distinct[k]
+		if binding[k] {
+			run.count("unstable_solo_answer_under_binding_limit_not_judged", 1)
+			continue
+		}
+		sig := "C14:solo-answer-varies:" + q.Kind
+		if !soloReported[sig] {
+			soloReported[sig] = true
+			run.violate(violation{Index: idx, Sub: q.Kind, Sig: sig,
+				Summary: fmt.Sprintf("%s request gave different answers in three runs ALONE on unchanged data (first: %q)", q.Kind, clip(solo[k], 200)),
+				Case:    map[string]any{"variant": cc.Variant, "config": cc.Cfg, "tuples": cc.Tuples}, Detail: q})
+		}
+		verdict = "violation"
+	}
 	type obs struct {
 		key, ans string
 	}
@@ -319,7 +361,11 @@ func runC14Round(run *runner, idx int64, cc *checkCase, reqs []*c14Req, raceMode
 	stopCancellers := make(chan struct{})
 	var cwg sync.WaitGroup
 	var abandoned atomic.Int64
-	for c := 0; c < 2; c++ {
+	nCancellers := 2
+	if os.Getenv("VERIF_C14_NO_CANCELLERS") != "" {
+		nCancellers = 0
+	}
+	for c := 0; c < nCancellers; c++ {
 		cwg.Add(1)
 		go func(c int) {
 			defer cwg.Done()
@@ -347,15 +393,20 @@ func runC14Round(run *runner, idx int64, cc *checkCase, reqs []*c14Req, raceMode
 	reported := map[string]bool{}
 	for o := range results {
 		run.eval(1)
-		if unstable[o.key] {
+		if binding[o.key] {
+			// answers under a binding limit may legitimately vary with the schedule
+			run.count("requests_under_binding_limit_not_judged", 1)
 			continue
+		}
+		if unstable[o.key] {
+			continue // reported above
 		}
 		if isTransientAnswer(o.ans) || isTransientAnswer(solo[o.key]) {
 			run.count("transient_storage_error_no_decision", 1)
 			continue
 		}
 		run.nontrivial(fmt.Sprintf("%d/%s", idx, o.key))
-		if o.ans != solo[o.key] {
+		if !soloSet[o.key][o.ans] {
 			kind := distinct[o.key].Kind
 			cls := "differs"
 			if strings.HasPrefix(o.ans, "PANIC") {
@@ -366,6 +417,10 @@ func runC14Round(run *runner, idx int64, cc *checkCase, reqs []*c14Req, raceMode
 			sig := fmt.Sprintf("C14:concurrent-answer-%s:%s", cls, kind)
 			if !reported[sig] {
 				reported[sig] = true
+				if os.Getenv("VERIF_DEBUG") != "" {
+					again := c14Exec(caseCtx, env, read, g, distinct[o.key])
+					fmt.Printf("DEBUG key=%q concurrent=%q soloSet=%v again=%q\n", o.key, clip(o.ans, 80), soloSet[o.key], clip(again, 80))
+				}
 				run.violate(violation{Index: idx, Sub: kind, Sig: sig,
 					Summary: fmt.Sprintf("%s request answered %q alone (3x) but %q when run concurrently with %d clients on unchanged data", kind, clip(solo[o.key], 200), clip(o.ans, 200), clients),
 					Case:    map[string]any{"variant": cc.Variant, "config": cc.Cfg, "tuples": cc.Tuples}, Detail: distinct[o.key]})
